@@ -30,6 +30,12 @@ checks = {
  "C04": ("exploration", "enum", E1,
          "All join-request/rejoin type x EUI/nonce/NetID/key alphabets; join-accepts over all 256 DLSettings x RXDelay 0..15 x CFList kinds x JoinReqType x keys and the full value-alphabet product; complete single-bit walks over every MIC input with OptNeg set and clear; every result compared with independently written CMAC / AES-ECB (device side recovers payload|MIC with AES-encrypt) and the decrypt path through marshal/unmarshal.",
          "crypto/aes trusted; alphabets + single-bit walks for the 64/128-bit inputs."),
+ "C08": ("exploration", "enum", E1,
+         "Control-byte abstraction of all byte strings (MHDR x length x FCtrl byte x rejoin-type byte x FPort byte x filler; the abstraction is itself tested by every-position x every-byte-value sweeps on base frames of every kind): every accepted string with MHDR RFU bits zero must re-encode without error to exactly the input, decode again to a deep-equal frame, and answer every applicable MIC validation with a boolean.",
+         "Bytes other than the control bytes are copied by the decoder (data independence, tested by the per-position sweeps). Coverage-guided fuzzing is a different family and is not used."),
+ "C09": ("exploration", "enum", E1,
+         "Per decoder entry point (frame binary/base64, FOpts/FRMPayload command decode, decrypt-then-decode with two keys, join-accept decrypt, CFList, MACCommand and payload decoders, the four application-layer Commands decoders, nine backend text/JSON unmarshalers and json.Unmarshal into all 20 payload structs) complete enumeration of short inputs and control-byte products; oracle: value or error, no panic, no hang, input buffer and its spare capacity untouched, stream decoders consume at least one byte per command.",
+         "Inputs longer than the enumerated bounds are covered by the progress invariant and by length sweeps with fillers up to 512 bytes; 'linear time' is decided by the progress invariant, not by timing."),
 }
 
 def load_extra():
